@@ -53,6 +53,8 @@ Theorem c11_integrity_clean : forall l, healthy l ->
              /\ l_latest l' = l_latest l /\ l_alloc l' = l_alloc l /\ l_pending l' = false.
 Proof. exact integrity_clean. Qed.
 
+(* (the secondary slot is either older than the primary or, after a recovery that trusted a two-phase
+   primary, a copy of it: header.rs select_primary_slot since 7a0293e) *)
 Theorem c11_integrity_repeatable : forall n l, healthy l ->
   exists l', check_n n l = Ok l' /\ healthy l' /\ l_latest l' = l_latest l /\ l_alloc l' = l_alloc l.
 Proof. exact integrity_repeatable. Qed.
@@ -63,7 +65,7 @@ Definition ex_q : slot := mkSlot 6 true false None [] [1;2;4].               (* 
 Definition ex_img : image := mkImage false true true ex_p ex_q.
 
 Example c11_nonvacuous_running : wf_running ex_img /\ wf_slot ex_p.
-Proof. unfold wf_running, wf_slot; simpl. repeat split; auto; reflexivity. Qed.
+Proof. unfold wf_running, wf_slot; simpl. repeat split; auto. left. reflexivity. Qed.
 
 Example c11_nonvacuous_paths :
   (* crash before the header of a 1PC commit 8 reached the disk, data partly written: snapshot of 7 is loaded *)
